@@ -203,7 +203,21 @@ impl NameMap {
             all_local_names.insert(name);
         }
 
-        // TODO: Member variable names
+        // Names which are emitted unchanged must not be picked as a generated name for a local variable
+        let mut verbatim_names = HashSet::new();
+        for name in name_map.names.values() {
+            verbatim_names.insert(name.name.clone());
+        }
+        for struct_def in &module.struct_registry {
+            for member in &struct_def.members {
+                verbatim_names.insert(member.name.clone());
+            }
+        }
+        for cbuffer in &module.cbuffer_registry {
+            for member in &cbuffer.members {
+                verbatim_names.insert(member.name.node.clone());
+            }
+        }
 
         for id in module.variable_registry.iter() {
             let name = &module.variable_registry.get_local_variable(id).name.node;
@@ -220,6 +234,7 @@ impl NameMap {
                     let candidate = format!("{}_{}", name, counter);
 
                     if !all_local_names.contains(&candidate)
+                        && !verbatim_names.contains(&candidate)
                         && used_names_all_scopes.insert(candidate.clone())
                     {
                         break candidate;
